@@ -5,7 +5,7 @@ import inspect
 import re
 import typing
 
-from ._lean import chars, string, boolean, lst
+from ._lean import chars, string, boolean, lst, probe_max_empty
 
 
 def emit():
@@ -42,30 +42,60 @@ end XlVerif.Gen
 def prefixOpToFunc : List (List Char × List Char) := {fmap(ast_nodes.PREFIX_OP_TO_FUNC)}
 def postfixOpToFunc : List (List Char × List Char) := {fmap(ast_nodes.POSTFIX_OP_TO_FUNC)}
 def infixOpToFunc : List (List Char × List Char) := {fmap(ast_nodes.INFIX_OP_TO_FUNC)}
-def maxEmpty : Nat := {int(ast_nodes.MAX_EMPTY)}
+def maxEmpty : Nat := {int(probe_max_empty())}
 end XlVerif.Gen
 '''
 
-    # ---- tokenizer constants that only exist as source literals
-    src = inspect.getsource(tokenizer.ExcelParser)
-    tree = ast.parse(inspect.getsource(tokenizer))
-    consts = [n.value for n in ast.walk(tree) if isinstance(n, ast.Constant) and isinstance(n.value, str)]
-    err_list = [c for c in consts if c.startswith(',#')]
-    cmp_list = [c for c in consts if re.fullmatch(r',(?:[<>=]{2},)+', c)]
-    # the scientific-notation regex: the string literal assigned to `regexSN` (whatever it says)
-    sn = [n.value.value for n in ast.walk(tree)
-          if isinstance(n, ast.Assign) and len(n.targets) == 1 and isinstance(n.targets[0], ast.Name)
-          and n.targets[0].id == 'regexSN' and isinstance(n.value, ast.Constant) and isinstance(n.value.value, str)]
-    if len(err_list) != 1 or len(cmp_list) != 1 or len(sn) != 1:
-        raise ValueError(f'tokenizer literals not found: {err_list} {cmp_list} {sn}')
+    # ---- tokenizer constants that only exist as source literals: obtained by PROBING the tokenizer (robust against any
+    # refactoring of how the tokenizer holds them — hoisted, renamed, as a set, as an equivalent regex …)
+    import itertools
+
+    def toks(text):
+        p = tokenizer.ExcelParser()
+        try:
+            p.parse(text)
+        except Exception:  # noqa: BLE001
+            return None
+        return [(t.tvalue, t.ttype, t.tsubtype) for t in p.tokens.items]
+
+    err_cands = ['#NULL!', '#DIV/0!', '#VALUE!', '#REF!', '#NAME?', '#NUM!', '#N/A',
+                 '#N/A!', '#NA', '#DIV/0', '#VALUE', '#REF', '#NAME', '#NUM', '#NULL', '#null!', '#value!', '#n/a', '#FOO!',
+                 '#N/A?', '#GETTING_DATA', '#SPILL!', '#CALC!', '#FIELD!', '#BLOCKED!', '#UNKNOWN!', '#']
+    err_list = [c for c in err_cands if toks('=' + c) == [(c, 'operand', 'error')]]
+    cmp_cands = ['>=', '<=', '<>', '<<', '>>', '==', '=<', '=>', '><']
+    cmp_list = [c for c in cmp_cands
+                if (lambda t: t is not None and len(t) == 3 and t[1][0] == c and t[1][1] == 'operator-infix')(toks('=1' + c + '2'))]
+    # the scientific-notation check: which accumulated tokens make the tokenizer glue a following sign onto the token
+    sn_cands = [''.join(w) for n in range(1, 5) for w in itertools.product('05.EeA', repeat=n)]
+    sn_cands += ['12.5E', '1.25E', '100E', '.25E', '1..E', '1.2.E', '12345E', 'A1E5E', '1E5E', '0.125e', '00.E', '5.50E', '.E']
+    sn_glued = [c for c in sn_cands if (lambda t: t is not None and len(t) == 1 and t[0][0] == c + '+1')(toks('=' + c + '+1'))]
+    if not err_list or not cmp_list or not sn_glued:
+        raise ValueError(f'tokenizer probes found nothing: {err_list} {cmp_list} {sn_glued[:5]}')
+    # (for information only: the regex text, when the source still holds it in this form)
+    try:
+        tree = ast.parse(inspect.getsource(tokenizer))
+        sn = [n.value.value for n in ast.walk(tree)
+              if isinstance(n, ast.Assign) and len(n.targets) == 1 and isinstance(n.targets[0], ast.Name)
+              and n.targets[0].id == 'regexSN' and isinstance(n.value, ast.Constant) and isinstance(n.value.value, str)]
+    except Exception:  # noqa: BLE001
+        sn = []
     ops_plain = tokenizer.ExcelParser().OPERATORS
     ops_range = tokenizer.ExcelParser(tokenize_range=True).OPERATORS
     files['TokConsts'] = f'''namespace XlVerif.Gen
 def tokOperators : List Char := {chars(ops_plain)}
 def tokOperatorsRange : List Char := {chars(ops_range)}
-def tokErrorLiterals : List (List Char) := {lst([chars(x) for x in err_list[0].strip(',').split(',')])}
-def tokComparators : List (List Char) := {lst([chars(x) for x in cmp_list[0].strip(',').split(',')])}
-def tokRegexSN : List Char := {chars(sn[0])}
+/-- the `#…` texts the tokenizer turns into ONE error operand (probed over a candidate list holding the seven codes and
+    near-misses; the candidates that are not listed here are not error literals) -/
+def tokErrorLiterals : List (List Char) := {lst([chars(x) for x in err_list])}
+def tokErrorCandidates : List (List Char) := {lst([chars(x) for x in err_cands])}
+/-- the two-character texts over `< > =` the tokenizer turns into ONE comparison operator (probed over all nine) -/
+def tokComparators : List (List Char) := {lst([chars(x) for x in cmp_list])}
+/-- scientific notation: the candidates (every text of length 1..4 over `0 5 . E e A` and some longer ones) and those among
+    them after which the tokenizer glues a following sign onto the token (probed with `=<text>+1`) -/
+def tokSNCandidates : List (List Char) := {lst([chars(x) for x in sn_cands])}
+def tokSNGlued : List (List Char) := {lst([chars(x) for x in sn_glued])}
+/-- (information only) the regex text when the source holds it as `regexSN = '…'` -/
+def tokRegexSN : List Char := {chars(sn[0]) if sn else '[]'}
 end XlVerif.Gen
 '''
 
@@ -155,6 +185,32 @@ end XlVerif.Gen
     # ---- misc constants
     codes = [f'({chars(code)}, {chars(cls.__name__)})' for code, cls in xlerrors.ERRORS_BY_CODE.items()]
     crit = [f'({chars(k)}, {chars(v.__name__)})' for k, v in xlcriteria.CRITERIA_OPERATORS.items()]
+    # the criteria regex, found by BEHAVIOUR (a str or compiled pattern of the module that splits '<=ab' into ('<=', 'ab')),
+    # and its operator alternatives obtained by probing it: robust against renaming / compiling / an equivalent rewrite
+    def _is_crit_rx(v):
+        try:
+            m_ = re.match(v, '<=ab')
+            return m_ is not None and (m_.group(1), m_.group(2)) == ('<=', 'ab')
+        except Exception:  # noqa: BLE001
+            return False
+    cands = [getattr(xlcriteria, 'CRITERIA_REGEX', None)] + [v for k, v in sorted(vars(xlcriteria).items())
+                                                              if isinstance(v, (str, re.Pattern))]
+    rxs = [v for v in cands if v is not None and _is_crit_rx(v)]
+    if not rxs:
+        raise ValueError('xlcriteria: no criteria regex found')
+    crx = rxs[0]
+    crx_text = crx if isinstance(crx, str) else crx.pattern
+    probe_alphabet = '<>=a1 \n'
+    probes = [''.join(w) for n in range(0, 4) for w in itertools.product(probe_alphabet, repeat=n)]
+    split = []
+    for t in probes:
+        m_ = re.search(crx, t)          # (parse_criteria uses re.search / re.match at position 0: the regex always matches)
+        split.append((t, m_.group(1) or '', m_.group(2)))
+    alts = []
+    for _t, g1, _g2 in split:
+        if g1 and g1 not in alts:
+            alts.append(g1)
+    alts.sort(key=lambda a: -len(a))     # tried in order, the first that is a prefix wins = the longest
     files['Misc'] = f'''namespace XlVerif.Gen
 def maxCol : Nat := {int(xutils.MAX_COL)}
 def maxRow : Nat := {int(xutils.MAX_ROW)}
@@ -162,7 +218,12 @@ def cellCharacterLimit : Nat := {int(xl.CELL_CHARACTER_LIMIT)}
 def compatibility : List Char := {chars(xl.COMPATIBILITY)}
 def errorCodes : List (List Char) := {lst([chars(c) for c in xlerrors.ERROR_CODES])}
 def errorsByCode : List (List Char × List Char) := {lst(codes)}
-def criteriaRegex : List Char := {chars(xlcriteria.CRITERIA_REGEX)}
+/-- (information only) the text of the criteria regex -/
+def criteriaRegex : List Char := {chars(crx_text)}
+/-- the operator prefixes the criteria regex recognises, longest first (PROBED) -/
+def criteriaAlts : List (List Char) := {lst([chars(a) for a in alts])}
+/-- (text, group 1 or '', group 2) of the criteria regex on every text of length ≤ 3 over `< > = a 1 blank newline` (PROBED) -/
+def criteriaSplitProbe : List (List Char × List Char × List Char) := {lst([f'({chars(t)}, {chars(a)}, {chars(b)})' for t, a, b in split])}
 def criteriaOperators : List (List Char × List Char) := {lst(crit)}
 end XlVerif.Gen
 '''
